@@ -7,7 +7,7 @@ from . import c16, c18
 
 
 
-def requests(L, rng, per_fn):
+def requests(L, rng, per_fn, catalog=None):
     from .. import xl
     CRYSTALS = xl.XL(L.config).crystal_list()['names'] + [None]      # unknown names cannot be expressed to the executor
     reqs, strs = [], []
@@ -49,6 +49,18 @@ def requests(L, rng, per_fn):
     add(*c16.special_req('Crystal_F_H_StructureFactor', s=C_, i=H_, d=[E_, D_, R_]))
     for fl in ((2, 2, 2), (0, 0, 0), (1, 0, 2), (3, 2, 2), (2, 1, 2), (2, 2, -1)):
         add(*c16.special_req('Crystal_F_H_StructureFactor_Partial', s=C_, i=H_ + [[fl[0]] * len(g), [fl[1]] * len(g), [fl[2]] * len(g)], d=[E_, D_, R_]))
+    # catalogue block, executed in this order by ONE JMon process (the last part): every entry by index, again by index, by name, and
+    # through a _CP function. JMon scribbles on every object it is handed, as a caller may: a lookup that hands out the catalogue's own
+    # object instead of a copy shows in the later requests
+    if catalog:
+        nn, rn = catalog['nist'], catalog['radio']
+        for rep in range(2):
+            add(*c16.special_req('NISTByIndex_summary', i=[np.arange(len(nn))]))
+            add(*c16.special_req('RadioByIndex_summary', i=[np.arange(len(rn))]))
+        add(*c16.special_req('NISTByName_summary', s=nn))
+        add(*c16.special_req('RadioByName_summary', s=rn))
+        add(*L.build('CS_Total_CP', nn, 10.0))
+        add(*c16.special_req('Refractive_Index', s=nn, d=[8.0, 0.0]))
     return np.concatenate(reqs), strs
 
 
@@ -80,7 +92,9 @@ def main(tier):
         with open(fnt, 'w') as fh:
             for n, f in L.fns.items():
                 fh.write('%d %s %s\n' % (f['id'], n, f['sig']))
-        req, strs = requests(L, rng, per_fn)
+        from .. import xl
+        X = xl.XL(config)
+        req, strs = requests(L, rng, per_fn, dict(nist=X.nist_list()['names'], radio=X.nuclide_list()['names']))
         res = L.run(req, [s for s in strs])
         parts = np.array_split(np.arange(len(req)), 8)
         with ThreadPoolExecutor(8) as ex:
